@@ -194,34 +194,55 @@ def run(ctx):
     if g.ok and g.behaviours == 0:
         ctx.broken.append("behaviour export produced nothing")
     lap("gen (%d behaviours)" % g.behaviours)
-    tr = os.path.join(sd, "trace.ndjson")
-    h = ctx.vh(exe, ["replay", beh, tr, "sync"])
-    ctx.cov(distinct_nontrivial=int(h.stats.get("distinct", 0)))
-    st = validate(ctx, sd, tr, int(h.stats.get("events", 0)), "TLC-generated histories replayed on TxCache",
-                  int(h.stats.get("behaviours", 0)))
-    lap("replay+validate (%s events, %s)" % (h.stats.get("events"), st))
+    parts = []          # recorded traces; validated together (one TLC start)
+    nbeh = 0
+
+    def drive(behfile, name):
+        out = ctx.path("tr_%s.ndjson" % name)
+        hh = ctx.vh(exe, ["replay", behfile, out, "sync"], count_samples=(name == "gen"))
+        parts.append(out)
+        return int(hh.stats.get("behaviours", 0)), int(hh.stats.get("distinct", 0))
+    n1, d1 = drive(beh, "gen")
     # long random walks of the specification
     sim = dict(gen, depth=30, rest="ACTION_CONSTRAINT EmitFull", senders="1, 2, 3", nonces="0, 1, 2, 4", ns="0, 1, 3, 5",
                bs="0, 1, 2", notify="0, 1, 2", maxfailed=6, maxsweep=3,
                configs="CfgC25Thorough" if c25 else "CfgC26Evict")
     beh2 = ctx.path("sim.ndjson")
     ctx.tlc(sd, "MC_TxCache", cfg("sim.cfg", sim), simulate=6 if q else 120, depth=30, timeout=900, behaviours_out=beh2)
-    thin(beh2, 25 if q else 40)   # TLC prints every last-step variant of a walk; keep one in 40
-    h2 = ctx.vh(exe, ["replay", beh2, tr, "sync"], count_samples=False)
-    st = validate(ctx, sd, tr, int(h2.stats.get("events", 0)), "simulated histories replayed on TxCache",
-                  int(h2.stats.get("behaviours", 0)))
-    lap("sim+replay+validate (%s events, %s)" % (h2.stats.get("events"), st))
+    thin(beh2, 25 if q else 40)   # TLC prints every last-step variant of a walk; keep one in 25/40
+    n2, d2 = drive(beh2, "sim")
+    # scenario family (random walks in a tiny universe where the pattern is frequent):
+    #  C25 churn    -- repeated evictions with "every transaction of a sender removed, sender re-added" in between
+    #  C26 rollback -- account-nonce notifications that go DOWN as well as up, followed by selections
+    if c25:
+        scen = dict(sim, senders="1, 2", nonces="0, 1", prices="1", sizes="3", configs="CfgChurn", ns="", bs="", notify="",
+                    clear="FALSE")
+    else:
+        scen = dict(sim, senders="1", nonces="1, 2, 4", prices="1", sizes="1", configs="CfgRollback", ns="3", bs="2",
+                    notify="0, 1, 3", clear="FALSE", maxfailed=4, maxsweep=2)
+    beh3 = ctx.path("scen.ndjson")
+    ctx.tlc(sd, "MC_TxCache", cfg("scen.cfg", scen), simulate=10 if q else 100, depth=30, timeout=900, behaviours_out=beh3)
+    thin(beh3, 6 if q else 10)
+    n3, d3 = drive(beh3, "scen")
+    lap("sim + scenario + replays (%d+%d+%d behaviours)" % (n1, n2, n3))
     # ------------------------------------------------------------------ R3: seeded random histories, larger universe
     nt, ln = (20, 100) if q else (250, 200)
-    r3 = ctx.vh(exe, ["record", ctx.seed, nt, ln, tr, "sync"], count_samples=False)
-    nev = int(r3.stats.get("events", 0))
-    st = validate(ctx, sd, tr, nev, "random TxCache history", nt)
-    ctx.cov(distinct_nontrivial=int(r3.stats.get("distinct", 0)))
-    lap("R3 (%d events, %s)" % (nev, st))
+    rec = ctx.path("tr_random.ndjson")
+    r3 = ctx.vh(exe, ["record", ctx.seed, nt, ln, rec, "sync"], count_samples=False)
+    parts.append(rec)
+    tr = os.path.join(sd, "trace.ndjson")
+    with open(tr, "w") as f:
+        for p_ in parts:
+            f.write(open(p_).read())
+    nev = sum(1 for _ in open(tr))
+    st = validate(ctx, sd, tr, nev, "TxCache history (TLC-generated, simulated, scenario and random histories)",
+                  n1 + n2 + n3 + nt)
+    ctx.cov(distinct_nontrivial=d1 + d2 + d3 + int(r3.stats.get("distinct", 0)))
+    lap("validate (%d events, %s)" % (nev, st))
     if c25:
         # the named deviation's own class, in a pass of its own on the same recorded histories
-        st2 = validate(ctx, sd, tr, nev, "random TxCache history", nt, which="C25known")
-        lap("R3, class of C25evict1 (%s)" % st2)
+        st2 = validate(ctx, sd, tr, nev, "TxCache history", nt, which="C25known")
+        lap("class of C25evict1 (%s)" % st2)
     if not q and st == "accepted":
         tc, oc = trace_cfgs(sd, ctx.prop)
         if c25:
@@ -247,7 +268,9 @@ def run(ctx):
                  "index by lookup, the three counters, account nonces, failed-selection counters, sweepable flags, sweep "
                  "list after EVERY call) is validated by TLC against specs/TxCache with the %s invariants evaluated on every "
                  "observed state. Histories: a seeded sample of the transitions of the bounded state graph (path to the "
-                 "source state + the transition), 30-step random walks of the specification (3 senders), and seeded random "
+                 "source state + the transition), 30-step random walks of the specification (3 senders), 30-step walks of a "
+                 "scenario family (C25: eviction churn with senders emptied and re-added between evictions; C26: account "
+                 "nonces notified up and down with selections in between), and seeded random "
                  "drivers (up to 4 senders, nonces 0..7 with gaps, sizes 1..100, eviction on/off, sender limits 1..6 txs). "
                  "distinct = distinct call sequences (replays) + distinct (configuration, call, arguments) (random drivers)"
                  % ctx.prop)
